@@ -1,18 +1,21 @@
 #!/venv/bin/python
-"""Record the function and class names of the reference tree (/repo as it is
-now) in ngslint/vocab.json.  The rules are written against these names; a
-package function that is *not* in the vocabulary is a helper introduced by a
-later change, and the analysis follows calls to it across modules (see
-core.resolve_local_call).  Run only when the reference tree changes."""
+"""Record the module-level function and class names of the reference tree
+(/repo as it is now), per module, in ngslint/vocab.json.  The rules are
+written against these names; a package function that is *not* in the
+vocabulary is a helper introduced by a later change, and the analysis follows
+calls to it across modules (see core.resolve_local_call).  Run only when the
+reference tree changes."""
 import json, os, sys
 sys.path.insert(0, "/verif")
 from ngslint.core import Repo
 repo = Repo(os.environ.get("NGS_REPO", "/repo"))
-names = set()
+out = {}
 for m in repo.modules.values():
+    names = set()
     for f in m.functions.values():
-        names.add(f.qualname.split(".")[-1])
-    for c in m.classes.values():
-        names.add(c.name)
-json.dump(sorted(names), open("/verif/ngslint/vocab.json", "w"), indent=0)
-print(len(names), "names")
+        if f.cls is None and f.parent is None:
+            names.add(f.qualname)
+    names |= set(m.classes)
+    out[m.name] = sorted(names)
+json.dump(out, open("/verif/ngslint/vocab.json", "w"), indent=0, sort_keys=True)
+print(len(out), "modules", sum(len(v) for v in out.values()), "names")
